@@ -127,6 +127,15 @@ def random_cases(family, rng, count):
                     t += 1 + Fraction(rng.choice([-1, 0, 0, 1, 2]), 2 ** 20)
                 if len(set(b_ - a_ for a_, b_ in zip(jx, jx[1:]))) > 1:
                     out.append({"fn": "repeat", "x": [R(v) for v in jx], "y": [R(Fraction(rng.randint(-20, 20), 4)) for _ in jx], "r": rng.randint(2, 6)})
+            if rng.random() < 0.3:
+                # decimal abscissae (tenths, twentieths, hundredths): the period is not representable in binary
+                den = rng.choice([10, 20, 100, 5])
+                t, dx = Fraction(rng.randint(-30, 30), den), []
+                for _ in range(rng.randint(2, 8)):
+                    dx.append(t)
+                    t += Fraction(rng.choice([1, 1, 2, 3, 5, 7]), den)
+                out.append({"fn": "repeat", "x": [R(v) for v in dx], "y": [R(Fraction(rng.randint(-20, 20), 4)) for _ in dx], "r": rng.choice([2, 3, 6, 7, 12, 12, 5])})
+                out.append({"fn": "repeat2", "x": [R(v) for v in dx], "y": [R(Fraction(rng.randint(-20, 20), 4)) for _ in dx], "a": rng.choice([2, 3]), "b": rng.choice([2, 3, 4])})
             if a * b <= 12:
                 out.append({"fn": "repeat2", "x": X, "y": Y, "a": a, "b": b})
         elif family == "truncate":
@@ -199,7 +208,7 @@ def random_cases(family, rng, count):
     for k in out:
         if k["fn"] in ("truncate", "slice_value", "repeat", "interp") and rng.random() < 0.15 \
                 and k.get("container", "array") in ("array", "list", "series") and "xcontainer" not in k and "qcontainer" not in k \
-                and all(r[1] <= 256 for r in k["x"]):        # translated abscissae must stay exactly representable
+                and all(r[1] in (1, 2, 4, 8, 16, 32, 64, 128, 256) for r in k["x"]):        # translated abscissae must stay exactly representable
             k["xoff"] = [rng.choice([-1, 1]), rng.choice([31, 40])]
     return out
 
